@@ -919,3 +919,144 @@ Section HybridPolicy.
         intros k' s Hks. apply (Hall (k', s) Hks).
   Qed.
 End HybridPolicy.
+
+(* ================================================================== DiskCache: invariant, no raise, oldest file *)
+Definition ct (x : nat * (nat * nat)) : nat := snd (snd x).
+
+Lemma In_adel : forall V k (d : list (nat * V)) y, In y (adel k d) -> In y d.
+Proof.
+  intros V k d y. induction d as [|[k' v'] t IH]; cbn; auto.
+  destruct (Nat.eqb k k'); cbn; intuition.
+Qed.
+
+Lemma In_adel_neq : forall V k (d : list (nat * V)) y, NoDup (map fst d) -> In y (adel k d) -> fst y <> k.
+Proof.
+  intros V k d y ND. induction d as [|[k' v'] t IH]; cbn; [tauto|].
+  inversion ND as [|? ? NI ND']; subst. destruct (Nat.eqb k k') eqn:E.
+  - apply Nat.eqb_eq in E. subst k'. intros H Hk. apply NI. rewrite <- Hk. now apply in_map.
+  - apply Nat.eqb_neq in E. cbn. intros [H|H]; [subst; cbn; auto | auto].
+Qed.
+
+Lemma adel_removed : forall V k (d : list (nat * V)) x, In x d -> ~ In x (adel k d) -> fst x = k.
+Proof.
+  intros V k d x. induction d as [|[k' v'] t IH]; cbn; [tauto|].
+  destruct (Nat.eqb k k') eqn:E.
+  - apply Nat.eqb_eq in E. subst k'. intros [H|H] N; [now subst | tauto].
+  - cbn. intros [H|H] N; [tauto | apply IH; tauto].
+Qed.
+
+Lemma length_adel : forall V k (d : list (nat * V)), amem k d = true -> S (length (adel k d)) = length d.
+Proof.
+  intros V k d H. rewrite <- (length_keys (adel k d)), keys_adel, <- (length_keys d).
+  apply length_qremove. now apply amem_In.
+Qed.
+
+Lemma NoDup_map_adel : forall V W (f : nat * V -> W) k (d : list (nat * V)),
+  NoDup (map f d) -> NoDup (map f (adel k d)).
+Proof.
+  intros V W f k d. induction d as [|[k' v'] t IH]; cbn; auto. intros ND.
+  inversion ND as [|? ? NI ND']; subst. destruct (Nat.eqb k k'); auto. cbn. constructor; auto.
+  intros H. apply NI. apply in_map_iff in H. destruct H as [y [Hy Hin]]. apply in_map_iff. exists y.
+  split; auto. eapply In_adel; eauto.
+Qed.
+
+Lemma In_aset : forall V k v (d : list (nat * V)) y, In y (aset k v d) -> y = (k, v) \/ In y d.
+Proof.
+  intros V k v d y. induction d as [|[k' v'] t IH]; cbn.
+  - intros [H|[]]; auto.
+  - destruct (Nat.eqb k k'); cbn; intuition.
+Qed.
+
+Lemma NoDup_map_aset : forall V W (f : nat * V -> W) k v (d : list (nat * V)),
+  NoDup (map f d) -> (forall x, In x d -> f x <> f (k, v)) -> NoDup (map f (aset k v d)).
+Proof.
+  intros V W f k v d. induction d as [|[k' v'] t IH]; cbn; intros ND NEW.
+  - constructor; [tauto | constructor].
+  - inversion ND as [|? ? NI ND']; subst. destruct (Nat.eqb k k'); cbn.
+    + constructor; auto. intros H. apply in_map_iff in H. destruct H as [y [Hy Hin]].
+      apply (NEW y); auto.
+    + constructor; [|apply IH; auto]. intros H. apply in_map_iff in H. destruct H as [y [Hy Hin]].
+      apply In_aset in Hin. destruct Hin as [->|Hin].
+      * apply (NEW (k', v')); auto.
+      * apply NI. apply in_map_iff. eauto.
+Qed.
+
+Lemma NoDup_map_inj : forall X Y (f : X -> Y) l x y,
+  NoDup (map f l) -> In x l -> In y l -> f x = f y -> x = y.
+Proof.
+  intros X Y f l x y. induction l as [|z t IH]; cbn; [tauto|]. intros ND.
+  inversion ND as [|? ? NI ND']; subst. intros [Hx|Hx] [Hy|Hy] E; subst; auto.
+  - exfalso. apply NI. rewrite E. now apply in_map.
+  - exfalso. apply NI. rewrite <- E. now apply in_map.
+Qed.
+
+Lemma argmin_t_spec : forall l b,
+  exists t, In (argmin_t b l, t) (b :: l) /\ t <= snd b /\ forall x, In x l -> t <= snd x.
+Proof.
+  induction l as [|[k x] r IH]; intros b; cbn [argmin_t].
+  - exists (snd b). split; [left; now destruct b | split; auto]. intros x [].
+  - destruct (x <? snd b) eqn:E.
+    + apply Nat.ltb_lt in E. destruct (IH (k, x)) as (t & Hin & Hle & Hall). cbn [snd] in *.
+      exists t. split; [now right|]. split; [lia|]. intros y [<-|Hy]; cbn [snd]; auto.
+    + apply Nat.ltb_ge in E. destruct (IH b) as (t & Hin & Hle & Hall). exists t. split.
+      * destruct Hin as [H|H]; [now left | right; now right].
+      * split; auto. intros y [<-|Hy]; cbn [snd]; auto. lia.
+Qed.
+
+Lemma file_eq_dec : forall a b : nat * (nat * nat), {a = b} + {a <> b}.
+Proof. repeat decide equality. Qed.
+
+(* the eviction loop of the repaired code: it never raises, removes exactly n files, and every removed
+   file is older than every kept file *)
+Lemma evict_loop_ok : forall n files, n <= length files -> NoDup (map fst files) -> NoDup (map ct files) ->
+  exists files', evict_loop true n (map fst files) files = (files', None)
+    /\ length files' + n = length files
+    /\ incl files' files
+    /\ NoDup (map fst files') /\ NoDup (map ct files')
+    /\ (forall x y, In x files -> ~ In x files' -> In y files' -> ct x < ct y).
+Proof.
+  induction n as [|n IH]; intros files Hn NDk NDc.
+  - exists files. cbn. repeat split; auto; try lia. { apply incl_refl. } intros x y Hx Nx. tauto.
+  - cbn [evict_loop].
+    set (g := fun k => (k, match aget k files with Some vt => snd vt | None => 0 end)).
+    assert (E1 : mapM (fun k => match aget k files with
+                                | Some vt => Ok (k, snd vt)
+                                | None => Err FileNotFoundError end) (map fst files)
+                 = Ok (map g (map fst files))).
+    { apply mapM_map. intros k Hk. apply amem_In in Hk. destruct (amem_aget _ _ Hk) as [vt Hvt].
+      unfold g. now rewrite Hvt. }
+    rewrite E1.
+    assert (G : forall y, In y files -> g (fst y) = (fst y, ct y)).
+    { intros y Hy. unfold g. now rewrite (aget_In_NoDup _ _ y NDk Hy). }
+    destruct (map g (map fst files)) as [|b rest] eqn:ES.
+    { apply (f_equal (@length _)) in ES. rewrite !map_length in ES. cbn in ES. lia. }
+    destruct (argmin_t_spec rest b) as (tm & Hin & Hb & Hall).
+    set (o := argmin_t b rest) in *. rewrite <- ES in Hin.
+    apply in_map_iff in Hin. destruct Hin as (ko & Hg & Hko). unfold g in Hg. inversion Hg as [[Eo Etm]].
+    subst ko. clear Hg.
+    assert (Mo : amem o files = true) by now apply amem_In.
+    assert (MIN : forall y, In y files -> tm <= ct y).
+    { intros y Hy. assert (Hy' : In (g (fst y)) (b :: rest)) by (rewrite <- ES; apply in_map; now apply in_map).
+      rewrite (G y Hy) in Hy'. destruct Hy' as [Hy'|Hy'].
+      - clear - Hb Hy'. rewrite Hy' in Hb. exact Hb.
+      - apply (Hall _ Hy'). }
+    destruct (IH (adel o files)) as (files' & Ev & Len & Inc & NDk' & NDc' & Pol).
+    { pose proof (length_adel _ o files Mo). lia. }
+    { rewrite keys_adel. now apply NoDup_qremove. }
+    { now apply NoDup_map_adel. }
+    exists files'. rewrite <- keys_adel. split; [exact Ev|].
+    split; [pose proof (length_adel _ o files Mo); lia|].
+    split; [intros y Hy; eapply In_adel; apply Inc; exact Hy|].
+    split; auto. split; auto.
+    intros x y Hx Nx Hy. destruct (in_dec file_eq_dec x (adel o files)) as [Hx1|Hx1].
+    + apply Pol; auto.
+    + pose proof (adel_removed _ o files x Hx Hx1) as Ex.
+      assert (Hy0 : In y files) by (eapply In_adel; apply Inc; exact Hy).
+      assert (Ny : fst y <> o) by (eapply In_adel_neq; [exact NDk | apply Inc; exact Hy]).
+      assert (Ctx : ct x = tm).
+      { pose proof (aget_In_NoDup _ _ x NDk Hx) as Hgx. rewrite Ex in Hgx. rewrite Hgx in Etm. exact Etm. }
+      pose proof (MIN y Hy0) as Hle.
+      assert (ct x <> ct y).
+      { intros E. apply (NoDup_map_inj _ _ ct files x y NDc Hx Hy0) in E. subst y. congruence. }
+      lia.
+Qed.
